@@ -8,7 +8,9 @@ FIXED = ["x y", "a b c", "(", ")", "()", "x)", ";", "a;b", "#", "#b01x", ":kw", 
          "x  ", "[i]", "{}", ",", "a,b", "`", "x`y", "a:b", "=x", "@", "^", "~!@$%^&*_-+=<>.?/", "x" * 40, "z3name!0",
          # reserved words (symbols only when quoted), white space inside / at the end of a name
          "let", "forall", "exists", "as", "par", "_", "!", "assert", "push", "reset", "check-sat", "match", "NUMERAL",
-         "abc\n", "a\nb", "x\t", "\ny", "p\r"]
+         "abc\n", "a\nb", "x\t", "\ny", "p\r",
+         # spellings of literals and keywords: symbols when quoted
+         "5", "12", "1.5", "007", "#b01", "#xAF", "#b", "\"q\"", "\"", "-5", ".5", ":named", ":kw x", "bv5", "0x1F"]
 ALPHA = "abxyz019 _-.!@$%^&*+=<>?/~()[]{};:#'\",`éλ"
 
 
@@ -17,8 +19,8 @@ def is_literal_spelling(n):
 
 
 def admissible(n, allow_bar_backslash=False):
-    # names of theory symbols cannot be declared at all (|and| is and); literal spellings are the tokenizer finding
-    if not n or n in THEORY_SYMBOLS or is_literal_spelling(n):
+    # names of theory symbols cannot be declared at all (|and| is and)
+    if not n or n in THEORY_SYMBOLS:
         return False
     if n in ("true", "false", "Bool", "Int", "Real", "String", "Array", "BitVec", "const"):
         return False
@@ -60,9 +62,8 @@ def rename(bp, mapping):
 
 
 def hostile_mapping(rnd, names, pct=60, allow_bar_backslash=False, functions=()):
-    """Injective renaming of `names`; each name is replaced with probability pct%.  Names of applied functions are
-    never reserved words: (|let| x) is an application in SMT-LIB, but pySMT's tokenizer drops the quotes (the open
-    delimiter-name finding of C09), so that class is kept out of the other checks."""
+    """Injective renaming of `names`; each name is replaced with probability pct%.  (`functions` is kept for the
+    callers: since the repair of the tokenizer, applied functions may be named like reserved words too.)"""
     used = set(names)
     m = {}
     if rnd.randrange(100) < 15:
@@ -80,8 +81,6 @@ def hostile_mapping(rnd, names, pct=60, allow_bar_backslash=False, functions=())
         if rnd.randrange(100) < pct:
             for _ in range(10):
                 h = draw_name(rnd, allow_bar_backslash)
-                if n in functions and h in RESERVED:
-                    continue
                 if h not in used:
                     used.add(h)
                     m[n] = h
